@@ -540,7 +540,14 @@ class Interp:
         cur = self.eval(s.target, frame, st)
         r = self.eval(s.value, frame, st)
         v = self.model.binop(self, st, s.op, cur, r, s)
-        self.model.on_store(self, st, frame, 'aug', s.target, cur, None, v, stmt=s)
+        if isinstance(s.target, ast.Subscript):
+            # the object written in place is the container, not the selected element
+            self.model.on_store(self, st, frame, 'aug', s.target, self.last.get(id(s.target.value), cur),
+                                self.last.get(id(s.target.slice)), v, stmt=s)
+        elif isinstance(s.target, ast.Attribute):
+            self.model.on_store(self, st, frame, 'aug', s.target, cur, None, v, stmt=s)
+        else:
+            self.model.on_store(self, st, frame, 'aug', s.target, cur, None, v, stmt=s)
         if isinstance(s.target, ast.Name):
             st.env[s.target.id] = v
             self.values_store(s.target, v, frame)
